@@ -653,7 +653,11 @@ func (in *Interp) runDefers(fr *frame) {
 					}
 				}
 			}()
-			in.callValue(d.fn, d.args, fr)
+			if bi, ok := d.fn.(*ssa.Builtin); ok && d.ins != nil {
+				in.builtin(bi, d.args, fr, &d.ins.Call, nil)
+			} else {
+				in.callValue(d.fn, d.args, fr)
+			}
 		}()
 	}
 }
@@ -670,7 +674,7 @@ func (in *Interp) callValue(f Value, args []Value, caller *frame) Value {
 		}
 		return in.call(x.Fn, args, x.Env, caller)
 	case *ssa.Builtin:
-		return in.builtin(x, args, caller, nil)
+		return in.builtin(x, args, caller, nil, nil)
 	}
 	panic(engineErr("call of non-function %T", f))
 }
@@ -792,7 +796,7 @@ func (in *Interp) eval(fr *frame, v ssa.Value) Value {
 	case *ssa.Call:
 		fn, args := in.prepareCall(fr, &x.Call)
 		if b, ok := fn.(*ssa.Builtin); ok {
-			return in.builtin(b, args, fr, x)
+			return in.builtin(b, args, fr, &x.Call, x.Type())
 		}
 		return in.callValue(fn, args, fr)
 	case *ssa.BinOp:
